@@ -334,6 +334,20 @@ class Summaries:
             return self.fold(ctx, a[0], a[1], a[2])
         if tp in ("core::iter::Iterator::sum", "core::iter::Iterator::product") and False:
             return NotImplemented
+        if tp in ("ark_ff::vec::Vec::<T>::new", "alloc::vec::Vec::<T>::new", "hashbrown::HashMap::<K, V>::new"):
+            return mk("empty", tp.split("::")[-3] if "Vec" in tp else "HashMap")
+        if tp.endswith("Vec::<T, A>::push"):
+            ctx.write(0, mk("vec_push", a[0], a[1]))
+            return UNIT
+        if tp.endswith("Vec::<T, A>::pop"):
+            if a[0].op == "vec_push":
+                ctx.write(0, a[0].args[0])
+                return variant("Some", a[0].args[1])
+            ctx.write(0, mk("vec_popped", a[0]))
+            return mk("vec_pop", a[0])
+        if tp.endswith("HashMap::<K, V, S, A>::insert"):
+            ctx.write(0, mk("map_insert", a[0], a[1], a[2]))
+            return mk("map_insert_old")
         if tp == "core::slice::<impl [T]>::reverse":
             ctx.write(0, mk("reversed", a[0]))
             return UNIT
@@ -544,6 +558,13 @@ class Summaries:
                 return I.static_cache[path]
             b = I.prog.body(path)
             if b is not None:
+                # only scalar-like lazies are folded; structured ones (lookup tables) stay symbolic so that
+                # rules can see which member is accessed
+                m = re.match(r"^once_cell::sync::Lazy<(.*)>$", b.get("ty", ""))
+                inner_ty = m.group(1) if m else b.get("ty", "")
+                if sort_of(inner_ty)[0] not in ("field", "arkfp", "bigint", "int", "bool"):
+                    I.static_cache[path] = mk("static_val", path)
+                    return I.static_cache[path]
                 I.static_cache[path] = mk("static_rec", path)
                 from .engine import Frame
                 f2 = Frame(path, ctx.fr.depth + 1, ctx.fr.out)
